@@ -675,6 +675,9 @@ func RunC15(tier string, seed int64, race bool) int {
 			return
 		}
 	})
+	if !race {
+		c15DirectHeaders(run, seed, tier)
+	}
 	run.Extra("worker_processes", batches)
 	run.Extra("worker_deaths", deaths)
 	run.Extra("cases_by_class_and_stage", classSeen)
@@ -705,4 +708,91 @@ func deathSig(kind, class, frame string) string {
 		return "process-death/" + kind + "/" + class
 	}
 	return "process-death/" + kind + "/" + class + "/" + frame
+}
+
+// c15DirectHeaders feeds hostile `headers` payloads straight into the exported
+// Repository.HandleHeadersMessage (the header repository's own entry point for a peer's headers
+// message): the answer must be an error or nil, never a panic, and a refused payload must leave
+// the tip where it was.
+func c15DirectHeaders(run *common.Run, seed int64, tier string) {
+	ctx := common.QuietCtx()
+	n := 3000
+	if tier == "thorough" {
+		n = 60000
+	}
+	var panics, errs, oks int64
+	common.ParallelFor(16, 16, func(part int) {
+		rng := common.Rng(seed, int64(159000+part))
+		repo := newC15Repo()
+		for i := 0; i < n/16; i++ {
+			cg := &chainGen{prev: *MainGenesisHash(), ts: 1231006505, rng: rng}
+			hs := cg.next(1 + rng.Intn(4))
+			class := ""
+			var pl []byte
+			switch rng.Intn(7) {
+			case 0:
+				pl = make([]byte, rng.Intn(300))
+				rng.Read(pl)
+				class = "random"
+			case 1:
+				pl = HeadersPayload(hs)
+				pl = pl[:rng.Intn(len(pl)+1)]
+				class = "truncated"
+			case 2:
+				c := hugeCounts[rng.Intn(len(hugeCounts))]
+				pl = append(varint(c), HeadersPayload(hs)[1:]...)
+				class = "count-huge"
+			case 3:
+				for _, h := range hs {
+					h.Bits = uint32(rng.Intn(256))<<24 | mantissasC15[rng.Intn(len(mantissasC15))]
+					h.Timestamp = []uint32{0, 1, 0x7fffffff, 0xffffffff}[rng.Intn(4)]
+				}
+				pl = HeadersPayload(hs)
+				class = "hostile-bits"
+			case 4:
+				pl = HeadersPayload(hs)
+				pl[len(pl)-1] = byte(1 + rng.Intn(255)) // non-zero tx count after the last header
+				class = "tx-count-nonzero"
+			case 5:
+				pl = HeadersPayload(hs)
+				pl[1+rng.Intn(len(pl)-1)] ^= byte(1 + rng.Intn(255))
+				class = "bit-flip"
+			default:
+				pl = append(varint(uint64(len(hs))), bytes.Repeat([]byte{0xff}, 81*len(hs))...)
+				class = "all-ff"
+			}
+			before := repo.Height()
+			var err error
+			hdrMsg := &wire.MessageHeader{Length: uint64(len(pl))}
+			pan := hdr.Safe(func() { err = repo.HandleHeadersMessage(ctx, hdrMsg, bytes.NewReader(pl)) })
+			run.Eval(1)
+			run.DistinctStr("direct-headers/" + class + "/" + fmt.Sprint(err == nil))
+			w := map[string]interface{}{"kind": "headers-payload", "class": class, "payload_hex": hex.EncodeToString(head(pl, 400)), "seed": seed}
+			switch {
+			case pan != "":
+				atomic.AddInt64(&panics, 1)
+				run.Violate(common.Violation{Clause: "process-keeps-running", Signature: "panic-in-HandleHeadersMessage/" + class, Detail: pan, Witness: w})
+			case err != nil:
+				atomic.AddInt64(&errs, 1)
+			default:
+				atomic.AddInt64(&oks, 1)
+			}
+			if h := repo.Height(); h != before {
+				// only a header the acceptance rule admits may move the tip (see runC15Case)
+				hd, e2 := repo.Header(ctx, h)
+				if e2 != nil || hd == nil {
+					run.Violate(common.Violation{Clause: "repositories-unaffected", Signature: "repository-changed/direct-headers/" + class, Witness: w})
+					continue
+				}
+				target, neg, over := hdr.RefCompactTarget(hd.Bits)
+				hv := new(big.Int).SetBytes(reverse32(hd.BlockHash()[:]))
+				if neg || over || target.Sign() == 0 || hv.Cmp(target) > 0 {
+					run.Violate(common.Violation{Clause: "repositories-unaffected", Signature: "repository-changed/direct-headers/" + class,
+						Detail: fmt.Sprintf("height %d -> %d, bits %08x", before, h, hd.Bits), Witness: w})
+				}
+				repo = newC15Repo()
+			}
+		}
+	})
+	run.Extra("direct_headers_payloads", map[string]int64{"returned_error": errs, "returned_nil": oks, "panicked": panics})
 }
